@@ -2,8 +2,6 @@ SPECIFICATION Spec
 CONSTANTS
   MaxCalls = 2
   MaxFaults = 2
-  Scenarios = {"converges", "inconsistent", "matched-start", "nonmonotone"}
-  Restore = TRUE
 INVARIANT C09_ok
 INVARIANT C09_restore
 INVARIANT C10_inlim
